@@ -513,6 +513,17 @@ func evalC07Conv(c c07Conv, o *Obs) error {
 	if !canaryIntact(backing, c.Data) {
 		return fmt.Errorf("bech32.ConvertBits modified its argument")
 	}
+	if err == nil && len(got) > 0 {
+		// the result belongs to the caller: writing to a copy's original must not reach the argument
+		keep := append([]byte{}, got...)
+		for i := range got {
+			got[i] ^= 0xff
+		}
+		if !canaryIntact(backing, c.Data) {
+			return fmt.Errorf("bech32.ConvertBits(%d->%d) returned memory it shares with its argument: writing to the result changed the argument", c.From, c.To)
+		}
+		got = keep
+	}
 	if len(c.Data) > 0 {
 		o.NT()
 	}
